@@ -477,6 +477,19 @@ def o_big_add(case):
     spec, ks = case["curve"], case["ks"]
     c = REF[spec]
     P, Q, R = (c.mul_fast(k, c.G) for k in ks)
+    if case.get("qx") is not None and P is not None:
+        # Q is the curve point whose abscissa is nearest to x(P) + dx in the direction of dx: operands whose coordinate
+        # difference is a small (positive or negative) number, a machine-word boundary, ...
+        dx, odd = case["qx"]
+        step = 1 if dx >= 0 else -1
+        Q = None
+        for j in range(200):
+            x = P[0] + dx + j * step
+            Q = special_point(c, x, odd) if 0 <= x < c.p else None
+            if Q is not None:
+                break
+        if Q is None:
+            Q = c.mul_fast(ks[1], c.G)       # x(P) + dx falls outside the field: the plain scalar multiple is used
     labels = [curve_label(spec), "rel=" + case["rel"], relation(c, P, Q)]
     for name, cobj in reps(spec):
         check_add(spec, c, cobj, name, P, Q, labels)
@@ -490,7 +503,7 @@ def o_big_add(case):
     return labels
 
 
-ADD_RELS = ["free", "Q=P", "Q=-P", "Q=inf", "P=inf", "P=G", "Q=G", "R=-(P+Q)", "R=Q", "R=P+Q", "free"]
+ADD_RELS = ["free", "Q=P", "Q=-P", "Q=inf", "P=inf", "P=G", "Q=G", "R=-(P+Q)", "R=Q", "R=P+Q", "free", "Q.x~P.x", "Q.x~P.x", "Q.x~P.x"]
 
 
 def s_big_add():
@@ -514,9 +527,18 @@ def s_big_add():
             k3 = k2
         elif rel == "R=P+Q":
             k3 = (k1 + k2) % n
-        return {"curve": cv, "ks": [k1, k2, k3], "rel": rel}
+        case = {"curve": cv, "ks": [k1, k2, k3], "rel": rel}
+        if rel == "Q.x~P.x" and cv != "bls" and k1 % n:
+            mag = CLOSE_DX[k2 % len(CLOSE_DX)]
+            case["qx"] = [mag if k3 & 1 else -mag, (k3 >> 1) & 1]
+        return case
     return st.sampled_from(["k1", "r1", "bls"]).flatmap(lambda cv: st.builds(
         mk, st.just(cv), ecgen.scalars(REF[cv].n), ecgen.scalars(REF[cv].n), ecgen.scalars(REF[cv].n), st.sampled_from(ADD_RELS)))
+
+
+# coordinate differences between the two operands of an addition (both signs are generated)
+CLOSE_DX = [1, 2, 3, 5, 255, 256, 65535, 65536, 2**31 - 1, 2**31, 2**32 - 1, 2**32, 2**32 + 1, 2**62, 2**63 - 1, 2**63, 2**63 + 1,
+            2**64 - 1, 2**64, 2**64 + 1, 2**65, 2**96, 2**127, 2**128, 2**192, 2**255]
 
 
 # ------------------------------------------------------------------------------------------------ big curves: k*P
